@@ -109,3 +109,41 @@ func VerifC20Hijack() {
 	_, _, err = plain.Hijack()
 	verifrt.Assert(err != nil, "Hijack on a connection that cannot be hijacked reports an error instead of panicking")
 }
+
+// VerifC20Concurrent (C20c): two pool operations run concurrently; afterwards
+// the pool must account for every connection it accepted: a connection that Put
+// kept is either handed out by Get, or counted idle, or closed by Shutdown.
+func VerifC20Concurrent(pair int) {
+	p := NewWebSocketPool(2, 10, time.Minute) // real constructor
+	a := &verifConn{id: 0}
+	p.Put("x", a)
+	b := &verifConn{id: 1}
+	var kept bool
+	switch pair {
+	case 0: // cleanup of a stale connection racing a Put on the same backend
+		verifrt.Advance(2 * time.Minute)
+		verifrt.Go(func() { p.cleanup() })
+		verifrt.Go(func() { kept = p.Put("x", b) })
+	case 1: // Get racing Get: one idle connection must not be handed out twice
+		var g1, g2 net.Conn
+		verifrt.Go(func() { g1 = p.Get("x") })
+		verifrt.Go(func() { g2 = p.Get("x") })
+		verifrt.WaitAll()
+		verifrt.Assert(g1 == nil || g2 == nil, "one idle connection is never handed to two holders")
+		verifrt.Assert(g1 != nil || g2 != nil, "an idle connection within idle_timeout is handed out")
+		return
+	case 2: // Put racing Shutdown
+		verifrt.Go(func() { kept = p.Put("x", b) })
+		verifrt.Go(func() { p.Shutdown() })
+	}
+	verifrt.WaitAll()
+	if pair == 0 {
+		verifrt.Assert(a.closed, "a connection idle longer than idle_timeout is closed by cleanup")
+	}
+	idle, _ := p.Stats("x")
+	if kept && pair == 0 {
+		verifrt.Assert(idle == 1, "a connection that Put accepted is accounted as idle")
+	}
+	p.Shutdown()
+	verifrt.Assert(!kept || b.closed, "Shutdown closes every connection the pool accepted")
+}
